@@ -4,7 +4,42 @@ import glob, os, re
 ROOT = os.path.dirname(os.path.dirname(os.path.abspath(__file__)))
 p = os.path.join(ROOT, "DESIGN.md")
 s = open(p).read()
+import json, subprocess
+def fixes_table():
+    rows = {}
+    for f in sorted(glob.glob(os.path.join(ROOT, "known_findings", "C*.json"))):
+        pid = os.path.basename(f)[:-5]
+        for e in json.load(open(f))["findings"]:
+            if e.get("status") == "fixed":
+                w = re.sub(r"^fixed: property=C\d+ \S+ ", "", e["what"])
+                rows.setdefault(e.get("commit", "?"), []).append((pid, w))
+    order = subprocess.run(["git", "-C", "/repo", "log", "--format=%h %s"], stdout=subprocess.PIPE, text=True).stdout.splitlines()
+    out = ["| commit | property | what failed |", "|---|---|---|"]
+    for line in reversed(order):
+        h, subj = line.split(" ", 1)
+        if not subj.startswith("fix:"):
+            continue
+        ents = rows.get(h, [])
+        props = ", ".join(sorted({p_ for p_, _ in ents})) or "—"
+        what = ents[0][1] if ents else subj[5:]
+        out.append("| %s | %s | %s |" % (h, props, what.replace("|", "\\|")[:420]))
+    return "\n".join(out)
+def seeds_table():
+    out = ["| seed | change | caught by | note |", "|---|---|---|---|"]
+    for d in sorted(glob.glob(os.path.join(ROOT, "seeded", "C*-*"))):
+        m = json.load(open(os.path.join(d, "meta.json")))
+        br = (m.get("breaks") or m.get("summary") or "").replace("\n", " ").replace("|", "\\|")
+        out.append("| %s | %s | %s | %s |" % (os.path.basename(d), br[:260], str(m.get("detected_by", "")).split(" (")[0],
+                                              (m.get("detection_history") or "caught by the first version of the check").replace("|", "\\|")[:400]))
+    return "\n".join(out)
+def replace_block(s, name, body):
+    b, e = "<!-- %s-BEGIN -->" % name, "<!-- %s-END -->" % name
+    if b in s:
+        return s[:s.index(b) + len(b)] + "\n" + body + "\n" + s[s.index(e):]
+    return s
 marker = "\n## 12. Per-property notes as built"
+s = replace_block(s, "FIXES", fixes_table())
+s = replace_block(s, "SEEDS", seeds_table())
 if marker in s:
     s = s[:s.index(marker)]
 out = [s.rstrip(), "", marker.strip(), "",
